@@ -566,12 +566,11 @@ end Generic
 
 open CoapVerif.Model.Cache CoapVerif.Model.SyncSystem
 
-/-- abstraction: the canonical listing of the Go map, and the clock -/
-def absState (d : MState) : State := ⟨canon d.data, d.now⟩
+/-- abstraction: the canonical listing of the Go map (and of every map object that was detached), the clock -/
+def absState (d : MState) : State :=
+  { m := canon d.data, now := d.now, gen := d.gen, detached := d.old.map (fun e => (e.1, canon e.2)) }
 
-/-- `it = true`: programs with iterating calls but without `LoadAndDeleteAll` (the map object is never replaced);
-    `it = false`: programs with `LoadAndDeleteAll` but without iterating calls -/
-def R (it : Bool) (d : MState) (s : State) : Prop := s = absState d ∧ NoDupKeys d.data ∧ (it = true → d.gen = 0)
+def R (d : MState) (s : State) : Prop := s = absState d ∧ NoDupKeys d.data
 
 theorem sput_same {k : Nat} {o : Val} {s : Entries} (hs : Sorted s) (h : sget k s = some o) : sput k o s = s := by
   apply sorted_ext _ _ (Sorted_sput hs) hs
@@ -612,10 +611,14 @@ theorem NoDupKeys_msetOpt {k : Nat} {v : Option Val} {m : Entries} (h : NoDupKey
   | none => exact NoDupKeys_merase h
   | some v => exact NoDupKeys_mset h
 
-/-- every single-section method of `Map`: its critical section is exactly the atomic transition of the specification -/
-theorem mapSection_refines (op : Op) (m m' : Entries) (r : Res) (now : Nat)
-    (h : mapSection op m = some (m', r)) (hnd : NoDupKeys m) :
-    (⟨canon m', now⟩, Outcome.done r) ∈ fires op ⟨canon m, now⟩ ∧ NoDupKeys m' := by
+/-- every single-section method of `Map` (all but `LoadAndDeleteAll`, which also detaches the map object): its critical
+    section is exactly the atomic transition of the specification -/
+theorem mapSection_refines (op : Op) (m m' : Entries) (r : Res) (s : State) (hs : s.m = canon m)
+    (h : mapSection op m = some (m', r)) (hnd : NoDupKeys m) (hne : op ≠ .loadAndDeleteAll) :
+    ({ s with m := canon m' }, Outcome.done r) ∈ fires op s ∧ NoDupKeys m' := by
+  obtain ⟨sm, now, gen, det⟩ := s
+  simp only at hs
+  subst hs
   cases op <;> simp only [mapSection, Option.some.injEq, Prod.mk.injEq, reduceCtorEq] at h
   case store k v =>
     obtain ⟨rfl, rfl⟩ := h
@@ -642,9 +645,7 @@ theorem mapSection_refines (op : Op) (m m' : Entries) (r : Res) (now : Nat)
   case loadAndDelete k =>
     obtain ⟨rfl, rfl⟩ := h
     exact ⟨by simp [fires, canon_merase _ _ hnd, sget_canon], NoDupKeys_merase hnd⟩
-  case loadAndDeleteAll =>
-    obtain ⟨rfl, rfl⟩ := h
-    exact ⟨by simp [fires, canon], by simp [NoDupKeys, keys]⟩
+  case loadAndDeleteAll => exact absurd rfl hne
   case copyData =>
     obtain ⟨rfl, rfl⟩ := h
     exact ⟨by simp [fires], hnd⟩
@@ -680,10 +681,13 @@ theorem mapSection_refines (op : Op) (m m' : Entries) (r : Res) (now : Nat)
     obtain ⟨rfl, rfl⟩ := h
     exact ⟨by simp [fires, canon_merase _ _ hnd, sget_canon], NoDupKeys_merase hnd⟩
 
-
-theorem cacheLoadOrStore_refines (k : Nat) (e : Val) (m : Entries) (now : Nat) (hnd : NoDupKeys m) :
-    (⟨canon (cacheLoadOrStoreSection k e now m).1, now⟩, Outcome.done (cacheLoadOrStoreSection k e now m).2)
-      ∈ fires (.cacheLoadOrStore k e) ⟨canon m, now⟩ ∧ NoDupKeys (cacheLoadOrStoreSection k e now m).1 := by
+theorem cacheLoadOrStore_refines (k : Nat) (e : Val) (m : Entries) (s : State) (hs : s.m = canon m) (hnd : NoDupKeys m) :
+    ({ s with m := canon (cacheLoadOrStoreSection k e s.now m).1 }, Outcome.done (cacheLoadOrStoreSection k e s.now m).2)
+      ∈ fires (.cacheLoadOrStore k e) s ∧ NoDupKeys (cacheLoadOrStoreSection k e s.now m).1 := by
+  obtain ⟨sm, now, gen, det⟩ := s
+  simp only at hs
+  subst hs
+  simp only
   unfold cacheLoadOrStoreSection
   cases hg : mget k m with
   | none => exact ⟨by simp [fires, sget_canon, hg, canon_mset], NoDupKeys_mset hnd⟩
@@ -693,13 +697,16 @@ theorem cacheLoadOrStore_refines (k : Nat) (e : Val) (m : Entries) (now : Nat) (
       exact ⟨by simp [fires, sget_canon, hg, hx, canon_mset], NoDupKeys_mset hnd⟩
     · have hx' : o.expired now = false := by simpa using hx
       simp only [hx', Bool.false_eq_true, if_false]
-      have hs : sget k (canon m) = some o := by rw [sget_canon, hg]
+      have hsg : sget k (canon m) = some o := by rw [sget_canon, hg]
       refine ⟨?_, NoDupKeys_mset hnd⟩
-      rw [canon_mset, sput_same (Sorted_canon m) hs]
-      simp [fires, hs, hx']
+      rw [canon_mset, sput_same (Sorted_canon m) hsg]
+      simp [fires, hsg, hx']
 
-theorem cacheLoad_refines (k : Nat) (m : Entries) (now : Nat) :
-    (⟨canon m, now⟩, Outcome.done (cacheLoadSection k now m)) ∈ fires (.cacheLoad k) ⟨canon m, now⟩ := by
+theorem cacheLoad_refines (k : Nat) (m : Entries) (s : State) (hs : s.m = canon m) :
+    (s, Outcome.done (cacheLoadSection k s.now m)) ∈ fires (.cacheLoad k) s := by
+  obtain ⟨sm, now, gen, det⟩ := s
+  simp only at hs
+  subst hs
   unfold cacheLoadSection
   cases hg : mget k m with
   | none => simp [fires, sget_canon, hg]
@@ -734,25 +741,22 @@ def isSingle : Op → Prop
   | _ => True
 
 /-- which pending specification operation a running call stands for -/
-def A (it : Bool) (l : L) (op : Op) : Prop :=
+def A (l : L) (op : Op) : Prop :=
   match l with
-  | .single o => op = o ∧ isSingle o ∧ (it = true → o ≠ .loadAndDeleteAll)
-  | .rangeStart stop _ => it = true ∧ op = .range stop []
-  | .range stop acc _ g => it = true ∧ g = 0 ∧ op = .range stop acc
-  | .rangeStop acc => ∃ stop, op = .range stop acc
-  | .sweepStart _ => it = true ∧ op = .sweep none
-  | .sweepIter t _ _ g => it = true ∧ g = 0 ∧ op = .sweep (some t)
-  | .sweepExpire t _ _ _ _ g => it = true ∧ g = 0 ∧ op = .sweep (some t)
+  | .single o => op = o ∧ isSingle o
+  | .rangeStart stop _ => op = .range stop [] none
+  | .range stop acc _ g => op = .range stop acc (some g)
+  | .rangeStop acc => ∃ stop g, op = .range stop acc g
+  | .sweepStart _ => op = .sweep none
+  | .sweepIter t _ _ _ => op = .sweep (some t)
+  | .sweepExpire t _ _ _ _ _ => op = .sweep (some t)
 
-/-- the calls a program may contain in each mode -/
-def Ok (it : Bool) (c : Call) : Prop := if it = true then c.op ≠ .loadAndDeleteAll else isSingle c.op
-
-theorem A_start (it : Bool) (c : Call) (h : Ok it c) : A it (impl.start c) (impl.view c) := by
+theorem A_start (c : Call) : A (impl.start c) (impl.view c) := by
   obtain ⟨op, oracle⟩ := c
-  cases it <;> cases op <;> simp_all [Ok, impl, start, view, A, isSingle]
+  cases op <;> simp [impl, start, view, A, isSingle]
 
-theorem A_sweepAfterVisit (t c : Nat) (e : Val) (acc : List Val) (cs : List Nat) :
-    A true (sweepAfterVisit t c e acc cs 0) (.sweep (some t)) := by
+theorem A_sweepAfterVisit (t c : Nat) (e : Val) (acc : List Val) (cs : List Nat) (g : Nat) :
+    A (sweepAfterVisit t c e acc cs g) (.sweep (some t)) := by
   unfold sweepAfterVisit; split <;> simp [A]
 
 theorem advance_some {oracle : List Nat} {m : Entries} {c : Nat} {v : Val} {cs : List Nat}
@@ -768,53 +772,76 @@ theorem advance_some {oracle : List Nat} {m : Entries} {c : Nat} {v : Val} {cs :
 
 theorem iterData_cur (d : MState) : iterData d d.gen = d.data := by simp [iterData]
 
-theorem rangeStep_ok (stop : Option Nat) (acc : Entries) (oracle : List Nat) (d : MState)
-    (hnd : NoDupKeys d.data) (hg : d.gen = 0) :
-    ResOK (R true) (A true) (.range stop acc) (absState d) (rangeStep stop acc oracle 0 d) := by
-  have hit : iterData d 0 = d.data := by rw [← hg]; exact iterData_cur d
-  simp only [rangeStep, hit]
-  cases ha : advance oracle d.data with
-  | none => exact ⟨_, by simp [fires, absState], rfl, hnd, fun _ => hg⟩
+theorem lookup_map_canon (g : Nat) (l : List (Nat × Entries)) :
+    (l.map (fun e => (e.1, canon e.2))).lookup g = (l.lookup g).map canon := by
+  induction l with
+  | nil => rfl
+  | cons e t ih =>
+    obtain ⟨a, b⟩ := e
+    simp only [List.map_cons, List.lookup_cons]
+    by_cases h : g == a
+    · simp [h]
+    · simp [h, ih]
+
+/-- the specification's "map a Range works on" is the canonical form of the model's -/
+theorem mapOf_abs (d : MState) (g : Nat) : mapOf (absState d) g = canon (iterData d g) := by
+  simp only [mapOf, absState, iterData]
+  by_cases h : g = d.gen
+  · simp [h]
+  · simp only [h, if_false, lookup_map_canon]
+    cases d.old.lookup g with
+    | none => simp [canon]
+    | some m => simp
+
+theorem rangeStep_ok (stop : Option Nat) (acc : Entries) (oracle : List Nat) (g : Nat) (og : Option Nat) (d : MState)
+    (hnd : NoDupKeys d.data) (hg : og.getD d.gen = g) :
+    ResOK R A (.range stop acc og) (absState d) (rangeStep stop acc oracle g d) := by
+  simp only [rangeStep]
+  cases ha : advance oracle (iterData d g) with
+  | none => exact ⟨_, by simp [fires], rfl, hnd⟩
   | some x =>
     obtain ⟨c, v, cs⟩ := x
-    have hmem : (c, v) ∈ canon d.data := mem_of_sget (by rw [sget_canon]; exact advance_some ha)
+    have hmem : (c, v) ∈ mapOf (absState d) g := by
+      rw [mapOf_abs]; exact mem_of_sget (by rw [sget_canon]; exact advance_some ha)
+    have hg' : og.getD (absState d).gen = g := hg
     simp only
     by_cases hstop : stop = some (acc ++ [(c, v)]).length
     · rw [if_pos hstop]
       right
-      refine ⟨absState d, .range stop (acc ++ [(c, v)]), ?_, ⟨rfl, hnd, fun _ => hg⟩, ⟨stop, rfl⟩⟩
-      simp only [fires, absState, List.mem_cons, List.mem_map]
+      refine ⟨absState d, .range stop (acc ++ [(c, v)]) (some g), ?_, ⟨rfl, hnd⟩, ⟨stop, some g, rfl⟩⟩
+      simp only [fires, hg', List.mem_cons, List.mem_map]
       exact Or.inr ⟨(c, v), hmem, rfl⟩
     · rw [if_neg hstop]
       right
-      refine ⟨absState d, .range stop (acc ++ [(c, v)]), ?_, ⟨rfl, hnd, fun _ => hg⟩, ⟨rfl, rfl, rfl⟩⟩
-      simp only [fires, absState, List.mem_cons, List.mem_map]
+      refine ⟨absState d, .range stop (acc ++ [(c, v)]) (some g), ?_, ⟨rfl, hnd⟩, rfl⟩
+      simp only [fires, hg', List.mem_cons, List.mem_map]
       exact Or.inr ⟨(c, v), hmem, rfl⟩
 
-theorem impl_stepOK (it : Bool) : StepOK impl (R it) (A it) := by
+theorem absState_data (d : MState) (m' : Entries) : absState { d with data := m' } = { absState d with m := canon m' } := rfl
+
+theorem impl_stepOK : StepOK impl R A := by
   intro l op d s hA hR
-  obtain ⟨rfl, hnd, hgen⟩ := hR
+  obtain ⟨rfl, hnd⟩ := hR
   cases l with
   | single o =>
-    obtain ⟨rfl, hs, hno⟩ := hA
+    obtain ⟨rfl, hs⟩ := hA
     simp only [impl, step]
     cases hop : op
     case cacheLoadOrStore k e =>
       simp only
-      obtain ⟨h1, h2⟩ := cacheLoadOrStore_refines k e d.data d.now hnd
-      exact ⟨_, h1, rfl, h2, hgen⟩
+      obtain ⟨h1, h2⟩ := cacheLoadOrStore_refines k e d.data (absState d) rfl hnd
+      exact ⟨_, h1, rfl, h2⟩
     case cacheLoad k =>
       simp only
-      exact ⟨_, cacheLoad_refines k d.data d.now, rfl, hnd, hgen⟩
+      exact ⟨_, cacheLoad_refines k d.data (absState d) rfl, rfl, hnd⟩
     case tick n =>
       simp only
-      exact ⟨⟨canon d.data, d.now + n⟩, by simp [fires, absState], rfl, hnd, hgen⟩
+      exact ⟨{ absState d with now := d.now + n }, by simp [fires, absState], rfl, hnd⟩
     case loadAndDeleteAll =>
       simp only
-      refine ⟨⟨[], d.now⟩, by simp [fires, absState], ?_, by simp [NoDupKeys, keys], ?_⟩
-      · simp [absState, canon]
-      · intro hit; exact absurd hop (hno hit)
-    case range stop acc => rw [hop] at hs; exact absurd hs (by simp [isSingle])
+      refine ⟨_, ?_, rfl, by simp [NoDupKeys, keys]⟩
+      simp [fires, absState, canon]
+    case range stop acc g => rw [hop] at hs; exact absurd hs (by simp [isSingle])
     case sweep t => rw [hop] at hs; exact absurd hs (by simp [isSingle])
     all_goals
       simp only
@@ -827,56 +854,56 @@ theorem impl_stepOK (it : Bool) : StepOK impl (R it) (A it) := by
           | (split at hm <;> exact absurd hm (by simp))
       | some mr =>
         obtain ⟨m', r⟩ := mr
-        obtain ⟨h1, h2⟩ := mapSection_refines _ d.data m' r d.now hm hnd
-        exact ⟨_, h1, rfl, h2, hgen⟩
+        obtain ⟨h1, h2⟩ := mapSection_refines _ d.data m' r (absState d) rfl hm hnd (by simp)
+        exact ⟨_, h1, rfl, h2⟩
   | rangeStart stop oracle =>
-    obtain ⟨rfl, rfl⟩ := hA
-    have hg := hgen rfl
-    simp only [impl, step, hg]
-    exact rangeStep_ok stop [] oracle d hnd hg
+    simp only [A] at hA
+    subst hA
+    simp only [impl, step]
+    exact rangeStep_ok stop [] oracle d.gen none d hnd rfl
   | range stop acc oracle g =>
-    obtain ⟨rfl, rfl, rfl⟩ := hA
+    simp only [A] at hA
+    subst hA
     simp only [impl, step]
-    exact rangeStep_ok stop acc oracle d hnd (hgen rfl)
+    exact rangeStep_ok stop acc oracle g (some g) d hnd rfl
   | rangeStop acc =>
-    obtain ⟨stop, rfl⟩ := hA
+    obtain ⟨stop, g, rfl⟩ := hA
     simp only [impl, step]
-    exact ⟨_, by simp [fires, absState], rfl, hnd, hgen⟩
+    exact ⟨_, by simp [fires], rfl, hnd⟩
   | sweepStart oracle =>
-    obtain ⟨rfl, rfl⟩ := hA
-    have hg := hgen rfl
-    have hit : iterData d 0 = d.data := by rw [← hg]; exact iterData_cur d
-    simp only [impl, step, sweepStep, hg, hit]
-    cases ha : advance oracle d.data with
-    | none => exact ⟨_, by simp [fires, absState], rfl, hnd, hgen⟩
+    simp only [A] at hA
+    subst hA
+    simp only [impl, step, sweepStep]
+    cases ha : advance oracle (iterData d d.gen) with
+    | none => exact ⟨_, by simp [fires], rfl, hnd⟩
     | some x =>
       obtain ⟨c, e, cs⟩ := x
       simp only
       right
-      exact ⟨absState d, .sweep (some d.now), by simp [fires, absState], ⟨rfl, hnd, hgen⟩, A_sweepAfterVisit _ _ _ _ _⟩
+      exact ⟨absState d, .sweep (some d.now), by simp [fires, absState], ⟨rfl, hnd⟩, A_sweepAfterVisit _ _ _ _ _ _⟩
   | sweepIter t acc oracle g =>
-    obtain ⟨rfl, rfl, rfl⟩ := hA
-    have hg := hgen rfl
-    have hit : iterData d 0 = d.data := by rw [← hg]; exact iterData_cur d
-    simp only [impl, step, sweepStep, hit]
-    cases ha : advance oracle d.data with
-    | none => exact ⟨_, by simp [fires, absState], rfl, hnd, hgen⟩
+    simp only [A] at hA
+    subst hA
+    simp only [impl, step, sweepStep]
+    cases ha : advance oracle (iterData d g) with
+    | none => exact ⟨_, by simp [fires], rfl, hnd⟩
     | some x =>
       obtain ⟨c, e, cs⟩ := x
       simp only
       left
-      exact ⟨⟨rfl, hnd, hgen⟩, A_sweepAfterVisit _ _ _ _ _⟩
+      exact ⟨⟨rfl, hnd⟩, A_sweepAfterVisit _ _ _ _ _ _⟩
   | sweepExpire t k e acc cs g =>
-    obtain ⟨rfl, rfl, rfl⟩ := hA
+    simp only [A] at hA
+    subst hA
     simp only [impl, step]
     obtain ⟨h1, h2⟩ := expireSection_refines k e t d.data hnd
     rcases h2 with ⟨_, hc⟩ | ⟨_, hg, hx, hc⟩
     · left
-      refine ⟨⟨?_, h1, hgen⟩, by simp [A]⟩
+      refine ⟨⟨?_, h1⟩, by simp [A]⟩
       simp only [absState, hc]
     · right
-      refine ⟨⟨sdel k (canon d.data), d.now⟩, .sweep (some t), ?_, ⟨?_, h1, hgen⟩, by simp [A]⟩
-      · simp only [fires, absState, List.mem_cons, List.mem_map, List.mem_filter]
+      refine ⟨{ absState d with m := sdel k (canon d.data) }, .sweep (some t), ?_, ⟨?_, h1⟩, by simp [A]⟩
+      · simp only [fires, List.mem_cons, List.mem_map, List.mem_filter]
         exact Or.inr ⟨(k, e), ⟨mem_of_sget hg, hx⟩, rfl⟩
       · simp only [absState, hc]
 
